@@ -406,16 +406,17 @@ func (c *client) hook(op *shim.Op) error {
 		return c.dead(op)
 	}
 	f := c.fault
-	if isLockPath(op.Path) {
-		if f != nil && f.LockOp != "" && f.LockOp == op.Name && !strings.HasSuffix(op.Path, ".lock") {
+	np := normPath(op.Path) // the library may hand over a path as the caller spelt it
+	if isLockPath(np) {
+		if f != nil && f.LockOp != "" && f.LockOp == op.Name && !strings.HasSuffix(np, ".lock") {
 			return errInjected
 		}
 		return nil
 	}
-	if f != nil && f.Kind == "errpath" && strings.HasSuffix(op.Path, f.Path) {
+	if f != nil && f.Kind == "errpath" && strings.HasSuffix(np, f.Path) {
 		return errInjected
 	}
-	if c.gate != nil && isRemote(op.Path) {
+	if c.gate != nil && isRemote(np) {
 		c.gate(c, op)
 		if c.crashed.Load() {
 			return c.dead(op)
@@ -424,7 +425,12 @@ func (c *client) hook(op *shim.Op) error {
 	c.mu.Lock()
 	k := c.n
 	c.n++
-	c.trace = append(c.trace, *op)
+	rec := *op
+	rec.Path = np
+	if rec.Path2 != "" {
+		rec.Path2 = normPath(rec.Path2)
+	}
+	c.trace = append(c.trace, rec)
 	c.mu.Unlock()
 	if f == nil || f.LockOp != "" || f.Kind == "errpath" || k != f.K {
 		return nil
@@ -445,7 +451,7 @@ func (c *client) hook(op *shim.Op) error {
 		return nil
 	case "closelost":
 		if op.Name == "f.Close" {
-			if fh, e := c.w.inner.OpenFile(op.Path, os.O_WRONLY|os.O_TRUNC, 0o644); e == nil {
+			if fh, e := c.w.inner.OpenFile(np, os.O_WRONLY|os.O_TRUNC, 0o644); e == nil {
 				_ = fh.Close()
 			}
 			return &os.PathError{Op: "close", Path: op.Path, Err: syscall.ENOSPC}
@@ -453,7 +459,7 @@ func (c *client) hook(op *shim.Op) error {
 		return nil
 	case "shortnil", "silent":
 		if op.Name == "f.Write" {
-			c.w.strict.arm(&writeTrick{path: op.Path, keep: f.shortN(op.N), lie: f.Kind == "silent"})
+			c.w.strict.arm(&writeTrick{path: np, keep: f.shortN(op.N), lie: f.Kind == "silent"})
 		}
 		return nil
 	case "crash":
@@ -490,7 +496,7 @@ func (c *client) guard(err *error) {
 	}
 }
 
-func (c *client) store(v int) error      { return c.storeK(cacheKey, v) }
+func (c *client) store(v int) error       { return c.storeK(cacheKey, v) }
 func (c *client) fetch(dest string) error { return c.fetchK(cacheKey, dest) }
 func (c *client) clean() error            { return c.cleanK(cacheKey) }
 
